@@ -18,8 +18,10 @@ def D.st (d : D) : St := { files := ofArray d.dir, isOpen := d.isOpen, size := d
 /-- store a model state (the directory is tabulated on the indexes `< bound`) -/
 def D.put (d : D) (s : St) : D := { d with dir := toArray s.files d.bound, isOpen := s.isOpen, size := s.size }
 
-def writeTag (k : Nat) : Nat := k % 199 + 1
-def preTag (i : Nat) : Nat := 200 + i % 50
+/-- byte `j` of the `k`-th write of a history is `(wBase k + j) mod 251`, byte `j` of the pre-existing file `i` is
+    `(pBase i + j) mod 251` (position-dependent, so that a permutation inside a record would show) -/
+def wBase (k : Nat) : Nat := (k * 53 + 1) % 251
+def pBase (i : Nat) : Nat := (i * 29 + 200) % 251
 
 def parseOpt (w : String) : Option Opt :=
   match w.toList with
@@ -45,11 +47,11 @@ def parsePre (s : String) : Option (List (Nat × Nat)) :=
 
 def preFiles (pre : List (Nat × Nat)) : Files := fun j =>
   match pre.find? (fun p => p.1 = j) with
-  | some (i, n) => some (List.replicate n (preTag i))
+  | some (i, n) => some (recBytes (pBase i) n)
   | none => none
 
 def showFile (i : Nat) (c : Bytes) : String :=
-  toString i ++ "=[" ++ ",".intercalate ((rle c).map fun (v, n) => toString v ++ "*" ++ toString n) ++ "]"
+  toString i ++ "=[" ++ ",".intercalate ((prog c).map fun (v, n) => toString v ++ "+" ++ toString n) ++ "]"
 
 def obs (d : D) : String :=
   let parts := (List.range d.bound).filterMap fun i => (d.dir.getD i none).map (showFile i)
@@ -72,7 +74,7 @@ def step (d : D) (line : String) : D × String :=
   | ["w", n] =>
     match n.toNat?, d.cfg with
     | some n, some cfg =>
-      let b := List.replicate n (writeTag d.k)
+      let b := recBytes (wBase d.k) n
       match iterate cfg 64 d.st b with
       | .done s' =>
         let d' := { d with k := d.k + 1 }.put s'
